@@ -247,6 +247,10 @@ def run_pairs(case, acc, order):
                 except Exception as e:
                     got = e
                 return exp, got
+            if lay.get('iterate'):
+                # the recording is first walked through once with the reader's own chunk iterator
+                for i0, i1 in reader.iter_chunks():
+                    np.asarray(reader[i0:i1])
             for i, (r1, c1) in enumerate(ops):
                 for j, (r2, c2) in enumerate(ops):
                     read(r1, c1)
@@ -400,6 +404,11 @@ def explore(ctx):
             lay = dict({'backend': backend, 'dtype': dt, 'n_channels': 3, 'parts': parts,
                         'sample_rate': 2 / 600.0, 'fill': ctx.seed}, **extra)
             pcases.append({'layout': lay, 'pairs': True})
+    # ... and after a full pass of the chunk iterator over a compressed recording of 40 chunks
+    for backend in ('cbin', 'cbin_reader'):
+        pcases.append({'layout': {'backend': backend, 'dtype': 'int16', 'n_channels': 3, 'parts': [40],
+                                  'sample_rate': 10.0, 'chunk': 10 if backend == 'cbin' else 1, 'threads': 2,
+                                  'iterate': True, 'fill': ctx.seed}, 'pairs': True})
     ctx.run_cases(run_pairs, pcases, chunk=1, sweep='read-pairs')
     # histories over one directory: written, opened, closed, rewritten under the same names, reopened
     ctx.run_cases(run_rewrite, rewrite_cases(ctx), chunk=2, sweep='rewrite-reopen')
